@@ -25,6 +25,11 @@ import (
 
 func init() { facets["respf"] = facetResp }
 
+// the parameter types of the client round trips: every type of the routing corpus except the
+// date-time with a declared Go layout (RFC1123 carries no fractional seconds, so a time.Time a
+// caller can put into the request struct is not, in general, what that layout can transmit)
+var qhTypesClient = qhTypes[:len(qhTypes)-1]
+
 type respDef struct {
 	Status  string // "200" | "default"
 	Ref     string // component response name ("" = inline)
@@ -211,7 +216,7 @@ func genRespSpec(rng *PRNG, name string) respSpec {
 			if !rng.Chance(1, 3) {
 				continue
 			}
-			t := Pick(rng, qhTypes)
+			t := Pick(rng, qhTypesClient)
 			var schema any = t.schema
 			if rng.Chance(1, 4) {
 				schema = map[string]any{"type": "array", "items": t.schema}
@@ -226,7 +231,7 @@ func genRespSpec(rng *PRNG, name string) respSpec {
 			if !rng.Chance(1, 4) {
 				continue
 			}
-			p := map[string]any{"in": "header", "name": hn, "schema": Pick(rng, qhTypes).schema}
+			p := map[string]any{"in": "header", "name": hn, "schema": Pick(rng, qhTypesClient).schema}
 			if rng.Bool() {
 				p["required"] = true
 			}
@@ -565,6 +570,20 @@ func facetResp(args []string) error {
 						cases = append(cases, rt.Case{Op: "serve", Pkg: r.Name, ID: fmt.Sprintf("%s#b%d.%d.%d", r.Name, k, bi, ci), Method: op.Method,
 							Path: rs.Base + strings.Join(segs, "/"), Body: &b, CL: &cl, Mws: 1, Headers: [][2]string{{"Content-Type", "application/json"}}})
 					}
+				}
+			}
+			{
+				// a handler that returns NaN where the schema says number (C14): encoding/json refuses
+				// the body; the API has to answer exactly once all the same
+				segs := strings.Split(op.Path, "/")
+				for x, sg := range segs {
+					if strings.HasPrefix(sg, "{") {
+						segs[x] = "1"
+					}
+				}
+				for ri := 0; ri < 4; ri++ {
+					cases = append(cases, rt.Case{Op: "serve", Pkg: r.Name, ID: fmt.Sprintf("%s#bn%d.%d", r.Name, k, ri), Method: op.Method,
+						Path: rs.Base + strings.Join(segs, "/"), Mws: 1, NaN: true, Resp: ri, NoParse: true})
 				}
 			}
 			for _, st := range []int{200, 201, 202, 204, 299, 301, 400, 404, 418, 500, 503} {
